@@ -15,8 +15,10 @@ Sources (each a syntactic pattern whose failure mode was reproduced on the real 
   nonefield       arithmetic on <local>.<field> where the local was built in the same function by a class whose
                   __init__ sets the field to None and fills it only conditionally (Viewbox after an incomplete
                   viewBox), without a None test on that field dominating the use                            -> TypeError
-  nonepoint       Point(<path>._segments[i].start|end) without a dominating None test of that expression: a closepath
-                  with nothing before it is stored as Close(None, None)                                    -> TypeError
+  nonepoint       in a property getter (the point accessors of Path): Point(<stored segment>.start|end) without a dominating
+                  None test of that expression - a closepath with nothing before it is stored as
+                  Close(None, None).  Not applied to the connection validators, whose branch structure excludes
+                  the None case by a case analysis this analysis does not make                              -> TypeError
 Exceptions are propagated along resolved calls (constructors -> __init__ chain, Class.m, self.m by MRO in the context
 class, unique method names, unique non-trivial property getters) and subtracted at try/except handlers.
 Unresolved calls contribute nothing and are counted.
@@ -25,10 +27,32 @@ import ast
 
 from . import rx
 from .model import AnalysisError, attr_chain, call_name
+from .flow import stored_endpoint as _stored_endpoint
 
 ALL = "*"
 PYFLOAT = r"[-+]?([0-9]+\.?[0-9]*|\.[0-9]+)([eE][-+]?[0-9]+)?"
 PYINT = r"[-+]?[0-9]+"
+
+
+def _binds(scope, name):
+    """the constructs of `scope` that bind `name` themselves (an assignment inside a loop body is the assignment, not the loop)"""
+    out = []
+    for b in ast.walk(scope):
+        if isinstance(b, ast.Assign):
+            tg = [t for x in b.targets for t in ast.walk(x)]
+        elif isinstance(b, (ast.AugAssign, ast.NamedExpr, ast.AnnAssign)):
+            tg = list(ast.walk(b.target))
+        elif isinstance(b, (ast.For, ast.comprehension)):
+            tg = list(ast.walk(b.target))
+        elif isinstance(b, ast.With):
+            tg = [t for it in b.items if it.optional_vars is not None for t in ast.walk(it.optional_vars)]
+        elif isinstance(b, ast.ExceptHandler):
+            tg = [ast.Name(id=b.name, ctx=ast.Store())] if b.name else []
+        else:
+            continue
+        if any(isinstance(t, ast.Name) and t.id == name for t in tg):
+            out.append(b)
+    return out
 
 
 class Flow:
@@ -70,8 +94,7 @@ class Flow:
         f = call.func
         if scope is not None and isinstance(f, ast.Attribute) and isinstance(f.value, ast.Name) and f.value.id not in ("self", "cls") and f.value.id not in m.classes:
             # local bound once, to a constructor call of a module class: tokens = SVGLexicalParser(); tokens.parse(...)
-            binds = [b for b in ast.walk(scope) if isinstance(b, (ast.Assign, ast.AugAssign, ast.For, ast.comprehension, ast.With, ast.NamedExpr))
-                     and any(isinstance(t, ast.Name) and t.id == f.value.id and isinstance(t.ctx, ast.Store) for t in ast.walk(b))]
+            binds = _binds(scope, f.value.id)
             params = [a.arg for a in scope.args.args + scope.args.kwonlyargs]
             if len(binds) == 1 and f.value.id not in params and isinstance(binds[0], ast.Assign) and len(binds[0].targets) == 1 and isinstance(binds[0].targets[0], ast.Name) \
                     and isinstance(binds[0].value, ast.Call) and isinstance(binds[0].value.func, ast.Name) and binds[0].value.func.id in m.classes:
@@ -128,8 +151,7 @@ class Flow:
         params = [x.arg for x in scope.args.args + scope.args.kwonlyargs]
         if a.id in params:
             return False
-        binds = [b for b in ast.walk(scope) if isinstance(b, (ast.Assign, ast.AugAssign, ast.For, ast.comprehension, ast.With, ast.NamedExpr))
-                 and any(isinstance(t, ast.Name) and t.id == a.id and isinstance(t.ctx, ast.Store) for t in ast.walk(b))]
+        binds = _binds(scope, a.id)
         return bool(binds) and all(isinstance(b, ast.Assign) and len(b.targets) == 1 and isinstance(b.targets[0], ast.Name) and isinstance(b.value, ast.Call)
                                    and isinstance(b.value.func, ast.Name) and b.value.func.id in self.m.classes for b in binds)
 
@@ -662,8 +684,8 @@ class _Fn:
             if inner:
                 merge(out, self.src("ValueError", "map(%s, <document text list>)" % ast.unparse(n.args[0]), n))
             return out
-        if isinstance(f, ast.Name) and f.id == "Point" and len(n.args) == 1 and isinstance(n.args[0], ast.Attribute) and n.args[0].attr in ("start", "end") \
-                and "_segments[" in ast.unparse(n.args[0]):
+        if self.qual.endswith(":getter") and isinstance(f, ast.Name) and f.id == "Point" and len(n.args) == 1 and isinstance(n.args[0], (ast.Attribute, ast.Name)) \
+                and _stored_endpoint(n.args[0], self.fn):
             # nonepoint: the end points of a STORED segment may be None (`z` first stores Close(None, None)); Point(None) raises
             from .flow import dominated
 
